@@ -87,6 +87,21 @@ def oracle(ctx):
                 got = type(ex).__name__
             if got != want:
                 ctx.violation("easter(%d, %r) gave %s, expected %s" % (y, m, got, want), {"year": y, "method": repr(m)}, {"impl": got})
+    # ARGUMENT SPELLING: a year given as any integral-valued number (float, Decimal, Fraction, bool-free int subclass, numpy-like
+    # __index__/__int__ objects are out of scope) denotes that year: the computus uses only //, % and +, and the result is built
+    # with int(...), so easter(2024.0) == easter(2024).  A regression dropped the int() casts (TypeError for 2024.0).
+    import decimal, fractions
+    class MyInt(int):
+        pass
+    for y in (1583, 1700, 1999, 2024, 2100, 4099):
+        for m in (1, 2, 3):
+            want = spec_of_year = impl_easter(y, m)
+            for label, yy in (("float", float(y)), ("Decimal", decimal.Decimal(y)), ("Fraction", fractions.Fraction(y)), ("int subclass", MyInt(y))):
+                ctx.case(("spelling", label, y, m), nontrivial=False); ctx.count("year_spellings")
+                got = impl_easter(yy, m)
+                if got != want:
+                    ctx.violation("easter(%r, %d) = %s but easter(%d, %d) = %s: the year is the same number spelled as %s"
+                                  % (yy, m, got, y, m, want, label), {"year": y, "method": m, "year_spelling": label}, {"impl": got, "int_year": want})
     # HISTORY: easter() is a function of (year, method) alone.  Call the three methods for one year in every order, and
     # every year twice, in one process: a memo keyed too coarsely (e.g. by (year, method < 3)), or any other state kept
     # between calls, makes the answer depend on the calls made before.  The case records the calls made so far for that
@@ -120,6 +135,12 @@ def replay(ctx, payload):
     s = ctx.driver(["easter.spec %d %d" % (y, m)])[0]
     for hm in c.get("history", []):          # repeat the calls made before the failing one
         impl_easter(y, hm)
+    if "year_spelling" in c:
+        import decimal, fractions
+        yy = {"float": float, "Decimal": decimal.Decimal, "Fraction": fractions.Fraction, "int subclass": type("MyInt", (int,), {})}[c["year_spelling"]](y)
+        g = impl_easter(yy, m)
+        print("easter(%r,%d): impl=%s spec=%s" % (yy, m, g, s))
+        return g == s
     g = impl_easter(y, m)
     print("easter(%d,%d): impl=%s spec=%s" % (y, m, g, s))
     return g == s
